@@ -69,8 +69,20 @@ Definition g92_of_args (args : list piece) : tok :=
 
 Definition starts_with (pre s : string) : bool := String.prefix pre s.
 
+(* the raw lines the trench writers hand to instruction(): the $ZCURR bookkeeping, the U axis, messages *)
+Definition is_msg (l : line) : bool :=
+  match l with PL s :: _ => starts_with "MSGDISPLAY" s || starts_with "MSGCLEAR" s | _ => false end.
+
 Definition tok_of_line (l : line) : list tok :=
+  if is_msg l then [TMsg] else
   match l with
+  | [PL a; PF d q; PL b] =>
+      if seqb b nl then
+        if seqb a "G1 U" then [TG1 false d None None None (Some (fmt d q)) None]
+        else if seqb a "$ZCURR = " then [TAssign (ivar "ZCURR") (ELit (fmt d q))]
+        else if seqb a "$ZCURR = $ZCURR + " then [TAssign (ivar "ZCURR") (EPlus (ivar "ZCURR") (fmt d q))]
+        else [TUnknown]
+      else [TUnknown]
   | [PHeader las] => [TSetup; TPso (seqb las "ant") false; TMode true; TSetup]
   | [PRaw t; PL s] => if seqb s nl then [t] else [TUnknown]
   | [PL s] =>
@@ -81,8 +93,10 @@ Definition tok_of_line (l : line) : list tok :=
       else if seqb s ("ENDREPEAT" ++ nl ++ nl) then [TEndRepeat]
       else if starts_with "MSGDISPLAY" s then [TMsg]
       else [TUnknown]
-  | [PL a; PL b] =>          (* instruction('\n') of a line without newline: '' + '\n' does not occur; blank + newline *)
-      if (seqb a nl || seqb a "") && seqb b nl then [] else [TUnknown]
+  | [PL a; PL b] =>
+      if (seqb a nl || seqb a "") && seqb b nl then []
+      else if seqb a "G1 Z$ZCURR" && seqb b nl then [TG1 false 0 None None (Some (CVar (ivar "ZCURR"))) None None]
+      else [TUnknown]
   | [PL a; PV _; PL b] =>
       if seqb a (nl ++ "; ") && seqb b nl then []                                       (* comment *)
       else if seqb a "PSOCONTROL " then
